@@ -18,6 +18,9 @@ CHECKS = {
  "C04": ("fault_enumeration", "exhaustive enumeration of every failing store call of every operation on the real stores + erroring transitions of the state-space search",
          "for every operation, pre-state and backend, every position k of a failing begin/get/set/delete/cursor-read/commit: error reported, raw content unchanged, nothing leaked, re-run behaves as the model says",
          "single faults per run; failures are injected by a store wrapper above the real adapters"),
+ "C05": ("fault_enumeration", "exhaustive enumeration of crash points (file image at every store call; SIGKILL of a child at every store call) over all short write histories, then reopen",
+         "every store call of every history up to the bound is a crash point; the reopened database must equal the acknowledged prefix or that plus the operation in flight, with intact indexes/counts/catalog and a raw key set equal to a canonical rebuild",
+         "process death, not power loss; crash points are store-call boundaries (bbolt's internal page-write order is bbolt's contract)"),
  "C06": ("model_checking", "explicit-state BFS of the real DB to a fixpoint, raw key-space audit against a canonical rebuild",
          "all reachable states of three alphabets; in each the raw key set equals that of a database freshly built with the same logical content, Count equals the number of documents, every index answers like a scan",
          "states are raw store contents (DESIGN 3.5); layout-agnostic audit (DESIGN 3.5a)"),
@@ -92,6 +95,7 @@ def main():
             {"name": "statespace", "path": "eng/statespace.go", "serves_properties": ["C01", "C06", "C09", "C12", "C13", "C14", "C15"], "kind_free_text": "explicit-state breadth-first search over the real DB with raw-state de-duplication and lock-step backend twins"},
             {"name": "bulksweep", "path": "eng/bulksweep.go", "serves_properties": ["C03"], "kind_free_text": "every collection size x index set x bulk op"},
             {"name": "sched", "path": "eng/sched.go", "serves_properties": ["C07"], "kind_free_text": "cooperative scheduler over store calls, DFS over choice sequences with preemption bound, porcupine linearizability oracle"},
+            {"name": "crashenum", "path": "eng/crashenum.go", "serves_properties": ["C05"], "kind_free_text": "every store call as a crash point: bbolt file images and real SIGKILLs of a child process, then reopen and audit"},
             {"name": "faultenum", "path": "eng/faultenum.go", "serves_properties": ["C04"], "kind_free_text": "every k-th store call failing, per operation x pre-state x backend"},
             {"name": "hostile", "path": "eng/hostile.go", "serves_properties": ["C20"], "kind_free_text": "every public call x situation x hostile criteria"},
             {"name": "jsonsweep", "path": "eng/jsonsweep.go", "serves_properties": ["C19"], "kind_free_text": "all small collections over a JSON grammar through export/import"},
